@@ -358,7 +358,7 @@ open LyModel LyModel.Tree
 
 /-! ## the case the RFC completion works on is `selCase` -/
 
-theorem hasData_eq_any (l : List DNode) (ds : List Nat) : hasData l ds = ds.any (hasInst l) := by
+theorem cHasData_eq_any (l : List DNode) (ds : List Nat) : hasData l ds = ds.any (hasInst l) := by
   rw [Bool.eq_iff_iff]
   simp only [hasData, inSids, hasInst, List.any_eq_true, List.contains_iff_mem, beq_iff_eq]
   constructor
@@ -395,13 +395,13 @@ theorem rfcNode_choice (X : SchemaX) (o : VOpts) (hno : o.noState = false) (s : 
   | true =>
     simp only [if_true]
     have hf : cases.find? (fun c => hasData l c.dataSids) = cases.find? (fun c => c.dataSids.any (hasInst l)) := by
-      apply find?_congr'; intro c _; exact hasData_eq_any l c.dataSids
+      apply find?_congr'; intro c _; exact cHasData_eq_any l c.dataSids
     rw [hf]
     cases hfi : cases.find? (fun c => c.dataSids.any (hasInst l)) with
     | some c => rfl
     | none =>
       exfalso
-      rw [hasData_eq_any, any_dataSidsL, List.any_eq_true] at hany
+      rw [cHasData_eq_any, any_dataSidsL, List.any_eq_true] at hany
       obtain ⟨c, hc, hcc⟩ := hany
       have := List.find?_eq_none.1 hfi c hc
       exact this hcc
@@ -410,7 +410,7 @@ theorem rfcNode_choice (X : SchemaX) (o : VOpts) (hno : o.noState = false) (s : 
     have hnone : cases.find? (fun c => c.dataSids.any (hasInst l)) = none := by
       rw [List.find?_eq_none]
       intro c hc hcc
-      rw [hasData_eq_any, any_dataSidsL] at hany
+      rw [cHasData_eq_any, any_dataSidsL] at hany
       have : cases.any (fun c => c.dataSids.any (hasInst l)) = true := List.any_eq_true.2 ⟨c, hc, hcc⟩
       rw [hany] at this; cases this
     rw [hnone]
